@@ -113,12 +113,54 @@ def o1_o2(ctx, rt):
                        bad_detail=f"`{src(n.ast)[:100]}`: the end point tested ({src(c)}) and the end point returned ({src(val)}) do not match")
     # converged flags set with the same conditions
     conv = [n for n in cfg.nodes if n.kind == "stmt" and isinstance(n.ast, ast.Assign) and isinstance(n.ast.targets[0], ast.Name)
-            and n.ast.targets[0].id == "converged" and isinstance(n.ast.value, ast.Call) and (dotted(n.ast.value.func) or "").endswith("where")]
+            and n.ast.targets[0].id == _loop_roles(rt)[0].get("converged", "converged") and isinstance(n.ast.value, ast.Call) and (dotted(n.ast.value.func) or "").endswith("where")]
     ovr = [n for k, n in kinds if k == "override"]
     ok = len(conv) == len(ovr) and all(src(a.ast.value.args[0]) == src(b.ast.value.args[0]) for a, b in zip(conv, ovr))
     ctx.decide("O1-O2/T5-endpoint-pairing", ok, rt, conv[0].ast if conv else None, construct="endpoint-sets-converged",
                detail="each end-point override also sets the converged flag under the same test",
                bad_detail="an end-point override does not set `converged` under the same test: the loop would move away from an exact end-point root")
+
+
+def _loop_roles(rt):
+    """Roles of the loop-carried locals of rtsafe_, by derivation: (xl, xh) are the targets of the orientation step, (F, DF) the
+    targets of the value-and-derivative evaluation, `converged` is what SolutionInfo(converged=...) reports, the iterate is the argument of that
+    evaluation.  Returns (outer role->name, body role->name) using the positions in the while_loop initial tuple."""
+    outer = {}
+    vg = None
+    for st in rt.node.body:
+        if isinstance(st, ast.Assign) and isinstance(st.value, ast.Call) and (dotted(st.value.func) or "").endswith("value_and_grad") and isinstance(st.targets[0], ast.Name):
+            vg = st.targets[0].id
+    for st in rt.node.body:
+        if isinstance(st, ast.Assign) and isinstance(st.targets[0], ast.Tuple) and len(st.targets[0].elts) == 2 and isinstance(st.value, ast.Call):
+            names = [t.id for t in st.targets[0].elts if isinstance(t, ast.Name)]
+            if len(names) != 2:
+                continue
+            if (dotted(st.value.func) or "") == "jax.lax.cond":
+                outer["xl"], outer["xh"] = names
+            elif isinstance(st.value.func, ast.Name) and st.value.func.id == vg:
+                outer["F"], outer["DF"] = names
+                if st.value.args and isinstance(st.value.args[0], ast.Name):
+                    outer["root"] = st.value.args[0].id
+    for r in rt.returns():
+        for c in ast.walk(r):
+            if isinstance(c, ast.Call):
+                for k in c.keywords:
+                    if k.arg == "converged" and isinstance(k.value, ast.Name):
+                        outer["converged"] = k.value.id
+    wl = [c for c in ast.walk(rt.node) if isinstance(c, ast.Call) and (dotted(c.func) or "").endswith("while_loop") and len(c.args) == 3 and isinstance(c.args[2], ast.Tuple)]
+    body = {}
+    if wl:
+        init = [src(x) for x in wl[0].args[2].elts]
+        lb = [c for c in rt.children if c.kind == "function" and isinstance(wl[0].args[1], ast.Name) and c.name == wl[0].args[1].id]
+        if lb:
+            for st in lb[0].node.body:
+                if isinstance(st, ast.Assign) and isinstance(st.targets[0], ast.Tuple) and isinstance(st.value, ast.Name) and st.value.id == lb[0].params()[0] \
+                        and len(st.targets[0].elts) == len(init):
+                    names = [t.id if isinstance(t, ast.Name) else None for t in st.targets[0].elts]
+                    for role, on in outer.items():
+                        if on in init:
+                            body[role] = names[init.index(on)]
+    return outer, body
 
 
 def o3_o4(ctx, rt):
@@ -149,12 +191,13 @@ def o3_o4(ctx, rt):
     if maint is not None:
         a = [x.arg for x in maint.args[1].args.args]
         tr_, fa_ = maint.args[1].body, maint.args[2].body
-        ok_m = same(tr_, f"({a[0]}, {a[2]})") and same(fa_, f"({a[1]}, {a[0]})") and [src(x) for x in maint.args[3:6]] == ["root", "xl", "xh"] \
-            and src(maint.args[0].left) == "F"
+        _, br_ = _loop_roles(rt)
+        ok_m = all(k in br_ for k in ("root", "xl", "xh", "F")) and same(tr_, f"({a[0]}, {a[2]})") and same(fa_, f"({a[1]}, {a[0]})") \
+            and [src(x) for x in maint.args[3:6]] == [br_.get("root"), br_.get("xl"), br_.get("xh")] and src(maint.args[0].left) == br_.get("F")
         # targets (xl, xh)
         for n in ast.walk(rt.node):
             if isinstance(n, ast.Assign) and n.value is maint:
-                ok_m = ok_m and [src(t) for t in n.targets[0].elts] == ["xl", "xh"]
+                ok_m = ok_m and [src(t) for t in n.targets[0].elts] == [br_.get("xl"), br_.get("xh")]
     ctx.decide(rule, ok_m, rt, maint, construct="bracket-maintenance", detail="F < 0 replaces the low end, otherwise the high end",
                bad_detail="bracket maintenance does not replace the low end (where f < 0) when the new residual is negative: the two sign conventions disagree")
     # steps
@@ -184,7 +227,10 @@ def o3_o4(ctx, rt):
                     and isinstance(st.value.left, ast.BinOp) and isinstance(st.value.left.op, ast.Mult):
                 try:
                     got = A.lower(st.value.left)
-                    want = A.lower(ast.parse("((root - xh)*DF - F) * ((root - xl)*DF - F)", mode="eval").body)
+                    _, br_ = _loop_roles(rt)
+                    want = A.lower(ast.parse("((root - xh)*DF - F) * ((root - xl)*DF - F)".replace("root", br_.get("root", "root")).replace("xh", br_.get("xh", "xh"))
+                                             .replace("xl", br_.get("xl", "xl")).replace("DF", "@D").replace("F", br_.get("F", "F")).replace("@D", br_.get("DF", "DF")),
+                                             mode="eval").body)
                     ok = A.equal(got, want)
                 except NotPolynomial:
                     ok = None
@@ -206,41 +252,74 @@ def o5_o6(ctx, rt):
     u1, u2 = unpack(cond), unpack(body)
     rets = body.returns()
     r = [src(e) for e in rets[0].elts] if rets and isinstance(rets[0], ast.Tuple) else None
-    ok = u1 is not None and u1 == u2 == r
+    # roles derived inside the body: convergence flag = the variable accumulated with `|`, counter = the variable incremented by 1,
+    # (F, DF) = targets of the value-and-derivative call, (xl, xh) = targets of the bracket-maintenance cond
+    acc = [st for st in ast.walk(body.node) if isinstance(st, ast.Assign) and isinstance(st.targets[0], ast.Name) and isinstance(st.value, ast.BinOp)
+           and isinstance(st.value.op, ast.BitOr)]
+    conv_b = acc[-1].targets[0].id if acc else None
+    cnt = [st.target.id for st in ast.walk(body.node) if isinstance(st, ast.AugAssign) and isinstance(st.op, ast.Add) and const_value(st.value) == 1 and isinstance(st.target, ast.Name)]
+    cnt_b = cnt[0] if cnt else None
+    ok = u2 is not None and u2 == r and u1 is not None and len(u1) == len(u2) and conv_b in u2 and cnt_b in u2
+    if ok:
+        # cond must negate the flag slot and bound the counter slot
+        neg = [n_.operand.id for n_ in ast.walk(cond.node) if isinstance(n_, ast.UnaryOp) and isinstance(n_.op, (ast.Invert, ast.Not)) and isinstance(n_.operand, ast.Name)]
+        lim = [n_.left.id for n_ in ast.walk(cond.node) if isinstance(n_, ast.Compare) and isinstance(n_.ops[0], ast.Lt) and isinstance(n_.left, ast.Name)]
+        ok = len(neg) == 1 and len(lim) == 1 and u1.index(neg[0]) == u2.index(conv_b) and u1.index(lim[0]) == u2.index(cnt_b)
     ctx.decide(rule, ok, body, None, construct="carry-order", detail=f"carry = {u2}",
-               bad_detail=f"while-loop carry order differs: cond unpacks {u1}, body unpacks {u2}, body returns {r}")
+               bad_detail=f"while-loop carry order differs: cond unpacks {u1} (negates the flag, bounds the counter), body unpacks {u2} and returns {r} "
+                          f"(flag `{conv_b}`, counter `{cnt_b}`)")
     wl = [c for c in ast.walk(rt.node) if isinstance(c, ast.Call) and (dotted(c.func) or "").endswith("while_loop")]
     okw = False
-    if wl and u2:
+    outer, by_pos = _loop_roles(rt)
+    if wl and u2 and isinstance(wl[0].args[2], ast.Tuple):
         init = wl[0].args[2]
-        names = [src(e) for e in init.elts] if isinstance(init, ast.Tuple) else []
-        role = {"root": rt.params()[1]}
-        okw = len(names) == len(u2) and all(a == role.get(b, b) or (b == "i" and a == "0") for a, b in zip(names, u2)) and \
-            src(wl[0].args[0]) == "cond" and src(wl[0].args[1]) == "loop_body"
-        # result unpack: x, dx, _, F, _, _, _, converged, iters
+        names = [src(e) for e in init.elts]
+        # roles derived independently inside the body
+        vg_b = None
+        body_roles = {"converged": conv_b}
+        for st in ast.walk(body.node):
+            if isinstance(st, ast.Assign) and isinstance(st.targets[0], ast.Tuple) and len(st.targets[0].elts) == 2 and isinstance(st.value, ast.Call):
+                nm2 = [t.id for t in st.targets[0].elts if isinstance(t, ast.Name)]
+                if len(nm2) != 2:
+                    continue
+                if (dotted(st.value.func) or "") == "jax.lax.cond" and len(st.value.args) >= 6:
+                    body_roles["xl"], body_roles["xh"] = nm2
+                elif isinstance(st.value.func, ast.Name) and len(st.value.args) == 1 and isinstance(st.value.args[0], ast.Name):
+                    body_roles["F"], body_roles["DF"] = nm2
+                    body_roles["root"] = st.value.args[0].id
+        okw = len(names) == len(u2) and isinstance(wl[0].args[0], ast.Name) and wl[0].args[0].id == cond.name and isinstance(wl[0].args[1], ast.Name) \
+            and wl[0].args[1].id == body.name and const_value(init.elts[u2.index(cnt_b)]) == 0 if cnt_b in u2 else False
+        for role in ("xl", "xh", "F", "DF", "root", "converged"):
+            okw = okw and role in outer and role in body_roles and body_roles[role] in u2 and outer[role] in names \
+                and names.index(outer[role]) == u2.index(body_roles[role])
+        # result unpack: the flag slot is what SolutionInfo reports, the iterate and residual slots are kept
         for st in ast.walk(rt.node):
             if isinstance(st, ast.Assign) and st.value is wl[0]:
                 res = [src(t) for t in st.targets[0].elts]
-                okw = okw and len(res) == len(u2) and res[u2.index("converged")] == "converged" and res[0] not in ("_",) and res[u2.index("F")] == "F"
+                okw = okw and len(res) == len(u2) and conv_b in u2 and res[u2.index(conv_b)] == outer.get("converged") and res[0] != "_" \
+                    and res[u2.index(body_roles.get("F", u2[0]))] != "_"
     ctx.decide(rule, okw, rt, wl[0] if wl else None, construct="carry-initial-and-result", detail="initial tuple and result unpacking follow the carry order",
                bad_detail="the initial carry tuple or the unpacking of the loop result does not follow the carry order")
     # result masked by converged
     cfg = cfg_of(rt)
     rr = cfg.returns()
     okm = False
+    cname = outer.get("converged", "converged")
     if rr and isinstance(rr[0].ast.value, ast.Tuple):
         first = rr[0].ast.value.elts[0]
         if isinstance(first, ast.Name):
             ds = cfg.reaching(rr[0], first.id)
             okm = len(ds) == 1 and isinstance(ds[0].ast, ast.Assign) and isinstance(ds[0].ast.value, ast.Call) and (dotted(ds[0].ast.value.func) or "").endswith("where") \
-                and src(ds[0].ast.value.args[0]) == "converged" and src(ds[0].ast.value.args[1]) == first.id and src(ds[0].ast.value.args[2]).endswith("nan")
+                and src(ds[0].ast.value.args[0]) == cname and src(ds[0].ast.value.args[1]) == first.id and src(ds[0].ast.value.args[2]).endswith("nan")
     ctx.decide("O6/T1-result-masked", okm, rt, rr[0].ast if rr else None, construct="nan-unless-converged", detail="x = where(converged, x, nan)",
                bad_detail="the returned root is not masked by `converged` (an unconverged iterate could be returned as a root)")
-    # convergence flag accumulates
+    # convergence flag accumulates: the last assignment of the flag slot inside the body must be `flag | (|dx| < x_tol) | (|F| < r_tol)`
+    flag_b = u2[u1.index([n_.operand.id for n_ in ast.walk(cond.node) if isinstance(n_, ast.UnaryOp) and isinstance(n_.op, (ast.Invert, ast.Not))
+                                   and isinstance(n_.operand, ast.Name)][0])] if u1 and u2 and len(u1) == len(u2) else None
     for st in ast.walk(body.node):
-        if isinstance(st, ast.Assign) and src(st.targets[0]) == "converged" and isinstance(st.value, ast.BinOp):
+        if isinstance(st, ast.Assign) and isinstance(st.targets[0], ast.Name) and st.targets[0].id == flag_b and isinstance(st.value, (ast.BinOp, ast.Compare, ast.BoolOp)):
             txt = src(st.value)
-            ok = txt.startswith("converged |") and "x_tol" in txt and "r_tol" in txt and "<" in txt
+            ok = txt.startswith(f"{flag_b} |") and "x_tol" in txt and "r_tol" in txt and "<" in txt
             ctx.decide("O6/T1-result-masked", ok, body, st, construct="convergence-test", detail=txt,
                        bad_detail=f"convergence flag `{txt}` does not accumulate (|dx| < x_tol) | (|F| < r_tol)")
 
